@@ -232,6 +232,10 @@ def inst_entries():
     for name, param, inst in INSTS:
         text = "declare i32 @g(i32 %%0)\n\ndeclare float @h(float %%0)\n\ndefine void @f(%s) {\n\t%s\n\tret void\n}\n" % (param, inst)
         out.append(("inst." + name, text, [inst]))
+        # the same instruction carrying a metadata attachment (the attachment is translated last, after every optional clause of the instruction)
+        if name != "freeze":                     # (the grammar has no attachment on freeze)
+            inst2 = inst + ", !foo !0"
+            out.append(("inst-md." + name, text.replace(inst, inst2) + "\n!0 = !{}\n", [inst2]))
     for name, param, term, ret in TERMS:
         text = ("declare i32 @g(i32 %%0)\n\ndefine %s @f(%s) personality i8* null {\n\t%s\n\nb1:\n\tret %s\n\nb2:\n\t%%lp = landingpad { i8*, i32 }\n\t\tcleanup\n\tret %s\n}\n"
                 % (ret, param, term, "void" if ret == "void" else "i32 0", "void" if ret == "void" else "i32 0"))
@@ -573,5 +577,69 @@ def order_entries():
     return out
 
 
+def layout_entries():
+    """a value USED in a block that is written BEFORE the block that defines it (legal: the definition dominates through the CFG): the parser types forward
+    references from the scaffold it builds in a first pass, so a constant next to such an operand is built at the scaffold's type"""
+    out = []
+    D, I = "0x3FB999999999999A", "1234567890123"
+    cases = [
+        ("fpext", "float %a", "%e = fpext float %a to double", "double", "fadd double %e, " + D),
+        ("fptrunc", "double %a", "%e = fptrunc double %a to float", "float", "fadd float %e, 0x3FB99999A0000000"),
+        ("zext", "i8 %a", "%e = zext i8 %a to i64", "i64", "add i64 %e, " + I),
+        ("sext", "i8 %a", "%e = sext i8 %a to i64", "i64", "add i64 %e, " + I),
+        ("trunc", "i64 %a", "%e = trunc i64 %a to i8", "i8", "add i8 %e, 100"),
+        ("ptrtoint", "i8* %a", "%e = ptrtoint i8* %a to i64", "i64", "add i64 %e, " + I),
+        ("inttoptr", "i64 %a", "%e = inttoptr i64 %a to i8*", "i1", "icmp eq i8* %e, null"),
+        ("bitcast", "i64 %a", "%e = bitcast i64 %a to double", "double", "fadd double %e, " + D),
+        ("uitofp", "i8 %a", "%e = uitofp i8 %a to double", "double", "fadd double %e, " + D),
+        ("sitofp", "i8 %a", "%e = sitofp i8 %a to double", "double", "fadd double %e, " + D),
+        ("fptoui", "float %a", "%e = fptoui float %a to i64", "i64", "add i64 %e, " + I),
+        ("fptosi", "float %a", "%e = fptosi float %a to i64", "i64", "add i64 %e, " + I),
+        ("addrspacecast", "i8* %a", "%e = addrspacecast i8* %a to i8 addrspace(1)*", "i1", "icmp eq i8 addrspace(1)* %e, null"),
+        ("load", "i64* %a", "%e = load i64, i64* %a", "i64", "add i64 %e, " + I),
+        ("extractvalue", "{ i8, i64 } %a", "%e = extractvalue { i8, i64 } %a, 1", "i64", "add i64 %e, " + I),
+        ("extractelement", "<2 x i64> %a", "%e = extractelement <2 x i64> %a, i8 1", "i64", "add i64 %e, " + I),
+        ("icmp", "i64 %a", "%e = icmp eq i64 %a, 7", "i1", "xor i1 %e, true"),
+        ("fcmp", "double %a", "%e = fcmp oeq double %a, " + D, "i1", "xor i1 %e, true"),
+        ("select", "i1 %a", "%e = select i1 %a, i64 1, i64 2", "i64", "add i64 %e, " + I),
+        ("call", "i8 %a", "%e = call i64 @g(i8 %a)", "i64", "add i64 %e, " + I),
+        ("phi", "i8 %a", "%e = phi i64 [ 5, %entry ]", "i64", "add i64 %e, " + I),
+        ("freeze", "i64 %a", "%e = freeze i64 %a", "i64", "add i64 %e, " + I),
+        ("shufflevector", "<2 x i8> %a", "%e = shufflevector <2 x i8> %a, <2 x i8> undef, <4 x i32> zeroinitializer", "<4 x i8>", "add <4 x i8> %e, <i8 1, i8 2, i8 3, i8 4>"),
+        ("binary", "i64 %a", "%e = mul i64 %a, 3", "i64", "add i64 %e, " + I),
+    ]
+    for name, param, d, rt, use in cases:
+        text = ("declare i64 @g(i8 %%0)\n\ndefine %s @f(%s) {\nentry:\n\tbr label %%def\n\nuse:\n\t%%r = %s\n\tret %s %%r\n\ndef:\n\t%s\n\tbr label %%use\n}\n"
+                % (rt, param, use, rt, d))
+        out.append(("layout.use-before-def." + name, text, ["%r = " + use, d]))
+    # a NAMED (alias) type written at an operand position that is not the result type: the result must not inherit the name
+    out += [
+        ("alias-operand.shufflevector-mask", "%mask = type <4 x i32>\n\ndefine <4 x float> @f(<2 x float> %a, <2 x float> %b) {\n\t%r = shufflevector <2 x float> %a, <2 x float> %b, %mask <i32 0, i32 1, i32 2, i32 3>\n\t%s = fadd <4 x float> %r, %r\n\tret <4 x float> %s\n}\n",
+         ["fadd <4 x float> %r, %r", "ret <4 x float> %s"]),
+        ("alias-operand.select-cond", "%c = type <2 x i1>\n\ndefine <2 x i32> @f(%c %k, <2 x i32> %a) {\n\t%r = select %c %k, <2 x i32> %a, <2 x i32> zeroinitializer\n\t%s = add <2 x i32> %r, %r\n\tret <2 x i32> %s\n}\n",
+         ["add <2 x i32> %r, %r"]),
+        ("alias-operand.icmp", "%v = type <2 x i32>\n\ndefine <2 x i1> @f(%v %a) {\n\t%r = icmp eq %v %a, zeroinitializer\n\t%s = xor <2 x i1> %r, %r\n\tret <2 x i1> %s\n}\n", ["xor <2 x i1> %r, %r"]),
+        ("alias-operand.extractelement-index", "%ix = type i32\n\ndefine i64 @f(<2 x i64> %a, %ix %i) {\n\t%r = extractelement <2 x i64> %a, %ix %i\n\t%s = add i64 %r, %r\n\tret i64 %s\n}\n", ["add i64 %r, %r"]),
+        ("alias-operand.cast-source", "%b = type i8\n\ndefine i64 @f(%b %a) {\n\t%r = zext %b %a to i64\n\t%s = add i64 %r, %r\n\tret i64 %s\n}\n", ["add i64 %r, %r"]),
+        ("alias-operand.gep-index", "%ix = type i64\n\ndefine i32* @f(i32* %p, %ix %i) {\n\t%r = getelementptr i32, i32* %p, %ix %i\n\t%s = getelementptr i32, i32* %r, i64 1\n\tret i32* %s\n}\n", ["getelementptr i32, i32* %r, i64 1"]),
+    ]
+    # constant expressions nested in expressions of the SAME kind, three deep
+    G = "@g = global i32 0\n"
+    out += [
+        ("nested-expr.bitcast", G + "@p = global i64* bitcast (i8* bitcast (i16* bitcast (i32* @g to i16*) to i8*) to i64*)\n", ["bitcast (i8* bitcast (i16* bitcast (i32* @g to i16*) to i8*) to i64*)"]),
+        ("nested-expr.addrspacecast", G + "@p = global i32 addrspace(3)* addrspacecast (i32 addrspace(2)* addrspacecast (i32 addrspace(1)* addrspacecast (i32* @g to i32 addrspace(1)*) to i32 addrspace(2)*) to i32 addrspace(3)*)\n", ["addrspace(2)* addrspacecast (i32 addrspace(1)* addrspacecast"]),
+        ("nested-expr.ptrtoint-inttoptr", G + "@p = global i64 ptrtoint (i8* inttoptr (i64 ptrtoint (i32* @g to i64) to i8*) to i64)\n", ["ptrtoint (i8* inttoptr (i64 ptrtoint (i32* @g to i64) to i8*) to i64)"]),
+        ("nested-expr.trunc-zext", G + "@p = global i16 trunc (i64 zext (i32 trunc (i64 ptrtoint (i32* @g to i64) to i32) to i64) to i16)\n", ["trunc (i64 zext (i32 trunc (i64 ptrtoint"]),
+        ("nested-expr.add", G + "@p = global i64 add (i64 add (i64 add (i64 ptrtoint (i32* @g to i64), i64 1), i64 2), i64 3)\n", ["add (i64 add (i64 add (i64 ptrtoint (i32* @g to i64), i64 1), i64 2), i64 3)"]),
+        ("nested-expr.gep", "@a = global [4 x [4 x i32]] zeroinitializer\n@p = global i32* getelementptr (i32, i32* getelementptr ([4 x i32], [4 x i32]* getelementptr ([4 x [4 x i32]], [4 x [4 x i32]]* @a, i64 0, i64 1), i64 0, i64 2), i64 1)\n",
+         ["getelementptr (i32, i32* getelementptr ([4 x i32], [4 x i32]* getelementptr ([4 x [4 x i32]]"]),
+        ("nested-expr.xor", G + "@p = global i64 xor (i64 xor (i64 xor (i64 ptrtoint (i32* @g to i64), i64 1), i64 1), i64 1)\n", ["xor (i64 xor (i64 xor (i64 ptrtoint"]),
+        ("nested-expr.select-icmp", G + "@p = global i1 icmp eq (i1 icmp eq (i1 icmp eq (i32* @g, i32* null), i1 true), i1 false)\n", ["icmp eq (i1 icmp eq (i1 icmp eq (i32* @g, i32* null), i1 true), i1 false)"]),
+    ]
+    # references to metadata IDs written with leading zeros are decimal
+    out.append(("uint.md-id-use", "!0 = !{!010, !08, !010}\n!8 = !{}\n!010 = !{i32 1}\n\n!nm = !{!010}\n", ["!0 = !{!10, !8, !10}", "!nm = !{!10}", "!10 = !{i32 1}"]))
+    return out
+
+
 def all_entries(rows):
-    return kw_entries(rows) + STRUCTURED + NAMED_NONSTRUCT + inst_entries() + DI + comdat_entries() + flag_cross_entries() + addrspace_cross_entries() + written_type_entries() + REPEATS + UINT_LITS + order_entries() + DI_REFS + clausegen.all_entries()
+    return kw_entries(rows) + STRUCTURED + NAMED_NONSTRUCT + inst_entries() + DI + comdat_entries() + flag_cross_entries() + addrspace_cross_entries() + written_type_entries() + REPEATS + UINT_LITS + order_entries() + DI_REFS + clausegen.all_entries() + layout_entries()
